@@ -62,6 +62,23 @@ static std::string run_probe(const gr_face *f, const Probe &p) {
     if (font) LIBV(gr_font_destroy(font));
     return d;
 }
+// Font-level state (C08 "on the same face and font"): the history's long-lived font is, for every other case, a hinted font whose
+// advance callback is a pure function of the glyph id, so the engine's per-font advance cache must be invisible (S91).
+static int g_hint_handle = 17;
+static float hint_adv(const void *, gr_uint16 gid) { return float((unsigned(gid) * 37u) % 29u) + 3.25f; }
+static gr_font *mk_lfont(const gr_face *f, bool hinted) {
+    return hinted ? LIB(gr_make_font_with_advance_fn(17, &g_hint_handle, hint_adv, f)) : LIB(gr_make_font(17, f));
+}
+static std::string run_probe_font(const gr_face *f, const Probe &p, const gr_font *font) {
+    Text tx;
+    tx.set(kEnc[p.enc], p.text, false);
+    gr_feature_val *fv = mkfeat(f, p);
+    gr_segment *s = LIB(gr_make_seg(font, f, 0, fv, kEnc[p.enc], tx.buf, p.text.size(), p.dir));
+    std::string d = dump_seg(s, f, font);
+    if (s) LIBV(gr_seg_destroy(s));
+    if (fv) LIBV(gr_featureval_destroy(fv));
+    return d;
+}
 static Probe draw_probe(Rng &r, const gr_face *f, const std::vector<uint32_t> &rep, const std::vector<std::vector<uint32_t>> &lines) {
     Probe p;
     p.text = (!lines.empty() && r.chance(0.5)) ? r.pick(lines) : random_text(r, rep, 24, r.chance(0.2));
@@ -221,7 +238,8 @@ int main(int argc, char **argv) {
         set_case(k, "history font=%s options=%u", fontpath.c_str(), opts[o]);
         cpu_budget_ms(60000);
         gr_face *live = LIB(gr_make_file_face(fontpath.c_str(), opts[o]));
-        gr_font *lfont = LIB(gr_make_font(17, live));
+        const bool hinted = (k & 1) != 0;
+        gr_font *lfont = mk_lfont(live, hinted);
         std::vector<gr_segment *> pool;
         std::vector<gr_feature_val *> fvpool;
         std::vector<gr_font *> fontpool;
@@ -310,6 +328,13 @@ int main(int argc, char **argv) {
                 st.add("probes_compared");
                 if (d != probes[pi].ref[o]) V("probe-differs", "after history %s the probe %zu differs from the same call on a fresh face", hist.c_str(), pi);
                 else if (d != "NULL\n" && probes[pi].text.size() >= 2) st.add("nontrivial");
+                {   // the same call through the history's long-lived font against a fresh identical font on the same face
+                    gr_font *fresh = mk_lfont(live, hinted);
+                    std::string a = run_probe_font(live, probes[pi], lfont), b = run_probe_font(live, probes[pi], fresh);
+                    if (fresh) LIBV(gr_font_destroy(fresh));
+                    st.add(hinted ? "font_probes_compared_hinted" : "font_probes_compared_plain");
+                    if (a != b) V("font-probe-differs", "after history %s the probe %zu shaped with the long-lived %s font differs from the same call with a fresh identical font", hist.c_str(), pi, hinted ? "hinted" : "plain");
+                }
                 // repeating the call gives the same result again
                 if (r.chance(0.2) && run_probe(live, probes[pi]) != d) V("repeat-differs", "the same call repeated immediately gives another segment");
                 if (!lprobes.empty()) {
